@@ -52,7 +52,8 @@ func parseAbsBase(s string) (absBase, bool) {
 
 // concretizer of one case
 type concr struct {
-	c *Case
+	c    *Case
+	sigs map[uint64][]byte // original mid -> signature bytes of the validly signed top-level message (for `sigof=`)
 }
 
 func (k *concr) rootBytes(id uint64) [32]byte {
@@ -163,6 +164,18 @@ func (k *concr) msg(ws []string) []byte {
 	b := absBase{t: atou(kvOf(ws, "t")), h: atou(kvOf(ws, "h")), r: atou(kvOf(ws, "r")), id: atou(kvOf(ws, "id")), root: atou(kvOf(ws, "root")),
 		dr: atou(kvOf(ws, "dr")), sig: kvOf(ws, "sig") == "1", mal: kvOf(ws, "mal") == "1", mid: atou(kvOf(ws, "mid")), signers: parseIDs(kvOf(ws, "s"))}
 	sm := k.build(b, k.l1List(kvOf(ws, "rcj")), k.baseList(kvOf(ws, "pj")), k.valBytes(atou(kvOf(ws, "full"))))
+	if k.sigs == nil {
+		k.sigs = map[uint64][]byte{}
+	}
+	if b.sig {
+		if _, ok := k.sigs[b.mid]; !ok {
+			k.sigs[b.mid] = append([]byte{}, sm.Signature...)
+		}
+	} else if so := kvOf(ws, "sigof"); so != "" {
+		if sg, ok := k.sigs[atou(so)]; ok {
+			sm.Signature = append([]byte{}, sg...)
+		}
+	}
 	return roundTrip(sm)
 }
 
@@ -210,6 +223,13 @@ func crossOracles(nodes []*replayNode, all []string) []violation {
 			}
 		}
 	} else { // c07: the file is a prefix followed by the constructed continuation; at its end everybody must be decided
+		var cs []*Case
+		for _, n := range nodes {
+			cs = append(cs, n.c)
+		}
+		if d, ok := refusedCorrectProposals(cs); ok {
+			add("C07/correct-leaders-proposal-refused", "replay: "+d)
+		}
 		vals := map[string]bool{}
 		undecided, decided := 0, 0
 		for _, n := range nodes {
@@ -230,6 +250,14 @@ func crossOracles(nodes []*replayNode, all []string) []violation {
 				suffix = ""
 			} else if decided > 0 && uint64(undecided) < nodes[0].c.env.q {
 				cause = ":decided-operators-stop-participating"
+			} else {
+				var cs []*Case
+				for _, n := range nodes {
+					cs = append(cs, n.c)
+				}
+				if sp := wedgeCauseOf(cs); sp != "" {
+					cause = sp
+				}
 			}
 			add("C07/no-decision-within-f+3-rounds"+cause+suffix, "replay: at the end of the constructed continuation not every correct operator has decided")
 		}
@@ -273,7 +301,8 @@ func replay(lines []string) []caseOut {
 				c.in.Ident(getEnvRole2(env.n).identifier)
 			}
 			c.c02 = *mode == "c02"
-			k = &concr{c}
+			c.c07 = *mode == "c07" && !role2 && ctrl
+			k = &concr{c: c}
 			cur = &replayNode{c: c}
 			if !role2 { // the cross-operator oracles are about the role under test
 				nodes = append(nodes, cur)
